@@ -345,23 +345,67 @@ func c15Rollback(p *Prog, c *Check, sp syncerSpec) {
 			continue
 		}
 		fi := p.Info(cl)
-		// direct pattern (registry, sequencer): delete and set in the same closure
-		for _, dn := range sp.deletes {
-			for _, dc := range callsTo(cl, dn) {
-				n++
-				key := shortFn(cl) + ":" + dn
-				darg := fi.T(dc.Common().Args[len(dc.Common().Args)-1])
-				sets := callsTo(cl, sp.setter)
-				if len(sets) != 1 {
-					c.Fail(rule, key, p.siteOf(dc), shortFn(cl), "rollback delete", "events are deleted but the sync position is not rewritten exactly once in the same transaction")
+		// direct pattern (registry, sequencer): delete and set in the same transaction — in the closure
+		// itself or in a helper it calls; the position is expressed in the terms of the function that deletes
+		txTree := p.CG().Reachable([]*ssa.Function{cl}, func(f *ssa.Function) bool { return !inModule(f) || isGeneratedFile(p.fileOf(f)) })
+		txScope := map[*ssa.Function]bool{}
+		for _, f := range txTree {
+			txScope[origin(f)] = true
+		}
+		for _, fd := range txTree {
+			if fd != cl && fd.Parent() != nil {
+				continue
+			}
+			// the processors' own RollbackEvents are the sibling rule's subject (below)
+			if recv := fd.Signature.Recv(); recv != nil && fd != cl {
+				isProc := false
+				for _, ex := range sp.extra {
+					if strings.HasSuffix(types.TypeString(deref(recv.Type()), relQual), ex[strings.LastIndex(ex, "/")+1:]) {
+						isProc = true
+					}
+				}
+				if isProc {
 					continue
 				}
-				flds := fi.structLitFields(sets[0].Common().Args[len(sets[0].Common().Args)-1])
-				num := flds["BlockNumber"]
-				ok := num != nil && linEqual(num, darg, -1)
-				c.Result(ok, rule, key, p.siteOf(dc), shortFn(cl), "rollback: delete from "+darg.s+", position "+termStr(num), "the position written after the rollback is not (first deleted block − 1): deleted blocks and position disagree", "position == deleteFrom − 1 (linear forms)")
+			}
+			dfi := p.Info(fd)
+			for _, dn := range sp.deletes {
+				for _, dc := range callsTo(fd, dn) {
+					n++
+					key := shortFn(fd) + ":" + dn
+					darg := dfi.T(dc.Common().Args[len(dc.Common().Args)-1]).freeToParams()
+					// setter calls of the transaction, lifted into fd's terms
+					var nums []*Term
+					okLift := true
+					for _, fs := range txTree {
+						sfi := p.Info(fs)
+						for _, sc := range callsTo(fs, sp.setter) {
+							flds := sfi.structLitFields(sc.Common().Args[len(sc.Common().Args)-1])
+							if flds == nil || flds["BlockNumber"] == nil {
+								okLift = false
+								continue
+							}
+							tuples, okT := p.liftTuples(fs, []*Term{flds["BlockNumber"]}, func(g *ssa.Function) bool { return origin(g) == origin(fd) || g == fd }, txScope, 0)
+							if !okT {
+								continue // a setter not reached from the deleting function (another path of the tree)
+							}
+							for _, tp := range tuples {
+								nums = append(nums, tp[0])
+							}
+						}
+					}
+					if !okLift || len(nums) != 1 {
+						c.Fail(rule, key, p.siteOf(dc), shortFn(fd), "rollback delete", "events are deleted but the sync position is not rewritten exactly once in the same transaction")
+						continue
+					}
+					num := nums[0]
+					ok := linEqual(num, darg, -1)
+					c.Analysed(shortFn(fd))
+					c.Result(ok, rule, key, p.siteOf(dc), shortFn(fd), "rollback: delete from "+darg.s+", position "+termStr(num), "the position written after the rollback is not (first deleted block − 1): deleted blocks and position disagree", "position == deleteFrom − 1 (linear forms)")
+				}
 			}
 		}
+		_ = fi
 		// multi: closure ranges over all processors calling RollbackEvents(tx, toBlock), then setSyncStatus(toBlock)
 		rbs := callsTo(cl, "RollbackEvents")
 		for _, rb := range rbs {
@@ -370,6 +414,13 @@ func c15Rollback(p *Prog, c *Check, sp syncerSpec) {
 			to := fi.T(rb.Common().Args[len(rb.Common().Args)-1])
 			ss := callsTo(cl, "setSyncStatus")
 			ok := len(ss) == 1 && fi.T(ss[0].Common().Args[3]).s == to.s
+			if len(ss) == 0 {
+				// the status row written directly
+				if sets := callsTo(cl, sp.setter); len(sets) == 1 {
+					flds := fi.structLitFields(sets[0].Common().Args[len(sets[0].Common().Args)-1])
+					ok = flds != nil && flds["BlockNumber"] != nil && stripConv(flds["BlockNumber"]).freeToParams().s == stripConv(to).freeToParams().s
+				}
+			}
 			// every processor: the call sits in a range over the Processors map, executed on every iteration
 			inLoop := false
 			for _, l := range loopsOf(p, cl) {
@@ -421,45 +472,70 @@ func c15Hash(p *Prog, c *Check, sp syncerSpec) {
 	if !c.Must(err) {
 		return
 	}
+	// the position is written in syncRange's transaction or in helpers it calls; the values are traced
+	// back to syncRange's own terms
+	tree := p.CG().Reachable([]*ssa.Function{fn}, func(f *ssa.Function) bool { return !inModule(f) || isGeneratedFile(p.fileOf(f)) })
+	scope := map[*ssa.Function]bool{}
+	for _, f := range tree {
+		scope[origin(f)] = true
+	}
+	isRoot := func(f *ssa.Function) bool { return origin(f) == fn }
+	var endPrm *ssa.Parameter
+	for _, prm := range fn.Params {
+		if bt, isB := prm.Type().Underlying().(*types.Basic); isB && bt.Info()&types.IsInteger != 0 {
+			endPrm = prm
+		}
+	}
 	n := 0
-	for _, f := range withClosures(fn) {
-		fi := p.Info(f)
-		var num, hash *Term
-		var site ssa.Instruction
-		for _, sc := range callsTo(f, sp.setter) {
-			flds := fi.structLitFields(sc.Common().Args[len(sc.Common().Args)-1])
-			num, hash, site = flds["BlockNumber"], flds["BlockHash"], sc
-		}
-		for _, sc := range callsTo(f, "setSyncStatus") {
-			num, hash, site = fi.T(sc.Common().Args[3]), fi.T(sc.Common().Args[4]), sc
-		}
-		if site == nil {
-			continue
-		}
-		n++
-		key := shortFn(f) + ":position"
-		b := Binds{}
-		ok := num != nil && hash != nil && ParsePat("Bytes(Hash(HeaderByNumber(_, _, SetUint64(_, $end))#0))").Match(hash, b) && ParsePat("$end").Match(num, b)
-		if ok {
-			// $end is the range end parameter of syncRange (captured)
-			// $end is the range-end parameter of syncRange (possibly captured by the transaction closure):
-			// the last integer parameter, the one also handed to the event query as the upper bound
-			e := b["end"].freeToParams()
-			ok = false
-			var endPrm *ssa.Parameter
-			for _, prm := range fn.Params {
-				if bt, isB := prm.Type().Underlying().(*types.Basic); isB && bt.Info()&types.IsInteger != 0 {
-					endPrm = prm
+	seenG := map[*ssa.Function]bool{}
+	for _, f := range tree {
+		for _, g := range withClosures(f) {
+			if seenG[g] {
+				continue
+			}
+			seenG[g] = true
+			fi := p.Info(g)
+			type pos struct {
+				num, hash *Term
+				site      ssa.Instruction
+			}
+			var ps []pos
+			for _, sc := range callsTo(g, sp.setter) {
+				if isGeneratedFile(p.fileOf(g)) {
+					continue
 				}
+				flds := fi.structLitFields(sc.Common().Args[len(sc.Common().Args)-1])
+				ps = append(ps, pos{flds["BlockNumber"], flds["BlockHash"], sc})
 			}
-			for e.K == TConv && len(e.Sub) == 1 {
-				e = e.Sub[0]
+			for _, sc := range callsTo(g, "setSyncStatus") {
+				ps = append(ps, pos{fi.T(sc.Common().Args[3]), fi.T(sc.Common().Args[4]), sc})
 			}
-			if endPrm != nil && e.K == TParam && e.Name == endPrm.Name() {
-				ok = true
+			for _, ps1 := range ps {
+				n++
+				key := shortFn(g) + ":position"
+				tuples, okL := p.liftTuples(g, []*Term{ps1.num, ps1.hash}, isRoot, scope, 0)
+				ok := okL && len(tuples) > 0
+				var numS, hashS string
+				for _, tp := range tuples {
+					num, hash := tp[0], tp[1]
+					numS, hashS = termStr(num), termStr(hash)
+					b := Binds{}
+					good := num != nil && hash != nil && ParsePat("Bytes(Hash(HeaderByNumber(_, _, SetUint64(_, $end))#0))").Match(hash, b) && ParsePat("$end").Match(num, b)
+					if good {
+						e := b["end"]
+						for e.K == TConv && len(e.Sub) == 1 {
+							e = e.Sub[0]
+						}
+						good = endPrm != nil && e.K == TParam && e.Name == endPrm.Name()
+					}
+					if !good {
+						ok = false
+					}
+				}
+				c.Analysed(shortFn(g))
+				c.Result(ok, rule, key, p.siteOf(ps1.site), shortFn(g), "stored (number, hash)", "the stored hash is not Hash() of the header fetched by HeaderByNumber for the stored block number: number="+numS+" hash="+hashS, "hash = HeaderByNumber(end).Hash(), number = end")
 			}
 		}
-		c.Result(ok, rule, key, p.siteOf(site), shortFn(f), "stored (number, hash)", "the stored hash is not Hash() of the header fetched by HeaderByNumber for the stored block number: number="+termStr(num)+" hash="+termStr(hash), "hash = HeaderByNumber(end).Hash(), number = end")
 	}
 	c.Floor(rule, n, 1)
 }
@@ -645,12 +721,28 @@ func c15Narrowing(p *Prog, c *Check) {
 		// syncRange hands the filter's result to the insert
 		if sr, err := p.Func(it.syncer + ".syncRange"); c.Must(err) {
 			okL := false
-			for _, f := range withClosures(sr) {
-				sfi := p.Info(f)
-				for _, ci := range callsTo(f, it.insert) {
-					arg := sfi.T(ci.Common().Args[len(ci.Common().Args)-1]).freeToParams()
-					if ParsePat(it.filter + "(_, _)").Match(arg, Binds{}) {
-						okL = true
+			tree := p.CG().Reachable([]*ssa.Function{sr}, func(f *ssa.Function) bool { return !inModule(f) || isGeneratedFile(p.fileOf(f)) })
+			scope := map[*ssa.Function]bool{}
+			for _, f := range tree {
+				scope[origin(f)] = true
+			}
+			nIns := 0
+			for _, f0 := range tree {
+				for _, f := range withClosures(f0) {
+					sfi := p.Info(f)
+					for _, ci := range callsTo(f, it.insert) {
+						nIns++
+						arg := sfi.T(ci.Common().Args[len(ci.Common().Args)-1])
+						tuples, okT := p.liftTuples(f, []*Term{arg}, func(g *ssa.Function) bool { return origin(g) == sr }, scope, 0)
+						good := okT && len(tuples) > 0
+						for _, tp := range tuples {
+							if !ParsePat(it.filter + "(_, _)").Match(tp[0], Binds{}) {
+								good = false
+							}
+						}
+						if good {
+							okL = true
+						}
 					}
 				}
 			}
